@@ -1903,7 +1903,11 @@ export class AnyOfDiscriminatedRuntype extends BaseRuntype {
     const printingContext = this.getPrintingContext(ctx);
     const refTarget = this.getRefTarget(runtype);
     if (refTarget != null) {
-      this.ensureContextualDefinition(refTarget.name, refTarget.target, ctx);
+      this.ensureContextualDefinition(
+        refTarget.name,
+        printingContext.getNamedTypeSchemaOverride(refTarget.name) ?? refTarget.target,
+        ctx,
+      );
       return printingContext.getRef(refTarget.name);
     }
 
